@@ -95,6 +95,13 @@ def run_family(ctx, plan, replay=None):
         if not rep.get('failures'):
             ctx.inconclusive.append('binding self-test: corrupted trace accepted')
     add_pseudo(ctx, traces, plan)
+    # scripted adversarial schedules that once broke a property on the real code (regression scenarios)
+    import glob, json, os
+    for p in sorted(glob.glob(os.path.join(tm.SPEC, 'scenarios', '*.json'))):
+        with open(p) as f:
+            for line in f:
+                if line.strip():
+                    traces.append(json.loads(line))
     if live_cex:
         rep0 = engine.run_driver(ctx, 'csim', live_cex, timeout=900, env=plan.env)
         engine.collect(ctx, rep0, live_cex, 'csim')
